@@ -30,15 +30,24 @@ struct Conv {
     static long from(const T &x) { return (long) x; }
     static T one() { return (T) 1; }
 };
+// the model's special values: 1000000 = the first power of two above which a quarter is absorbed, +-2000000 = +-infinity
 template <>
 struct Conv<float> {
-    static float to(long v) { return v / 4.0f; }
-    static long from(const float &x) { return (x * 4 == std::floor(x * 4)) ? (long) (x * 4) : -99999; }
+    static float to(long v) { return v == 1000000 ? 16777216.0f : v == 2000000 ? INFINITY : v == -2000000 ? -INFINITY : v / 4.0f; }
+    static long from(const float &x) {
+        if (std::isinf(x)) return x > 0 ? 2000000 : -2000000;
+        if (x == 16777216.0f) return 1000000;
+        return (x * 4 == std::floor(x * 4) && std::fabs(x) < 1000) ? (long) (x * 4) : -99999;
+    }
 };
 template <>
 struct Conv<double> {
-    static double to(long v) { return v / 4.0; }
-    static long from(const double &x) { return (x * 4 == std::floor(x * 4)) ? (long) (x * 4) : -99999; }
+    static double to(long v) { return v == 1000000 ? 9007199254740992.0 : v == 2000000 ? (double) INFINITY : v == -2000000 ? (double) -INFINITY : v / 4.0; }
+    static long from(const double &x) {
+        if (std::isinf(x)) return x > 0 ? 2000000 : -2000000;
+        if (x == 9007199254740992.0) return 1000000;
+        return (x * 4 == std::floor(x * 4) && std::fabs(x) < 1000) ? (long) (x * 4) : -99999;
+    }
 };
 
 std::string str_of(const std::string &digits) {   // "12" -> "ab"
@@ -71,6 +80,9 @@ void run_num(const Execution &ex) {
         else if (op == "Sub") o -= Conv<T>::to(v);
         else if (op == "Mul") o *= (T) v;          // factors and divisors are plain numbers, not quarters
         else if (op == "Div") o /= (T) v;
+        else if (op == "AssignBig") o = Conv<T>::to(1000000);
+        else if (op == "AddAbsorbed") o += Conv<T>::to(v);
+        else if (op == "DivZero") o /= Conv<T>::to(0);
         else if (op == "AddF") o += (double) v / 2;   // an operand of another arithmetic type
         else if (op == "SubF") o -= (double) v / 2;
         else if (op == "MulF") o *= (double) v / 2;
